@@ -53,7 +53,7 @@ CHECKS = {
             "DESIGN.md 3/C16"),
     "C18": ("exploration", "vf-air",
             "exhaustive enumeration of the parameter lattice + property-based testing (proptest) of monotonicity and of the verifier's acceptance policy on generated honest and forged proofs",
-            "Conjectured estimate compared with the formula transcribed from the documentation on the complete lattice queries 1..255 x blowup 2..128 x grinding 0..32 x extension 1..3 x trace 2^3..2^(31-log2 blowup) x {62,64,128}-bit fields x collision resistance 96..128 (FRI options rotated in quick, full product in thorough). Both estimates checked for monotonicity along the whole queries / grinding / extension / collision-resistance axes from generated base points (proven estimate: sampled). Acceptance policy checked on real proofs of a small AIR over the three fields: Insufficient* iff level < minimum, UnacceptableProofOptions iff not in the set, forged field moduli never accepted.",
+            "Conjectured estimate compared with the formula transcribed from the documentation on the complete lattice queries 1..255 x blowup 2..128 x grinding 0..32 x extension 1..3 x trace 2^3..2^(31-log2 blowup) x {62,64,128}-bit fields x collision resistance 96..128 (FRI options rotated in quick, full product in thorough). Both estimates checked for monotonicity along the whole queries / grinding / extension / collision-resistance axes from generated base points (proven estimate: sampled). Acceptance policy checked on real proofs of a small AIR over the three fields: Insufficient* iff level < minimum, UnacceptableProofOptions iff not in the set, forged field moduli never accepted, neither on the honest proof nor on a proof that a dishonest prover computed under the forged context's seed (coin with swapped context elements).",
             "No independent oracle for the proven estimate (monotonicity, cap, no panic, the repository's 5 pinned values only). Collision resistances other than 96/124/128 via a user-defined Hasher. Real proofs limited to traces <= 2^6 and grinding <= 10. Lengths Context::new refuses are outside the claim. Panics on forged contexts are counted as 'not accepted' (C06's subject).",
             "DESIGN.md 3/C18"),
     "C03": ("fault_enumeration", "vf-stark",
@@ -68,7 +68,7 @@ CHECKS = {
             "DESIGN.md 3/C06"),
     "C05": ("fault_enumeration", "vf-fri",
             "property-based adversarial testing (proptest) with adaptive provers (AdvFri) and an exact legitimacy oracle",
-            "Fault enumeration: 13 adversary strategies in 6 families (honest folding of random / too-high-degree / partially corrupted functions, over-long remainder, switching to another function at some layer, values opened from another chain or solved after the queries so that only one Merkle check can notice, folding with a wrong challenge incl. crafted instances only that one consistency check can notice, omitted / duplicated / swapped layers, remainder interpolated after the queries with and without sending its commitment, rows solved after the queries under a partition count above the number of rows) played by an independent FRI prover that writes FriProof wire bytes itself against the real FriVerifier/DefaultVerifierChannel, over folding 2/4/8/16, all remainder sizes, blowups, 1..255 queries, base and extension fields, six hashers. Acceptance is allowed only when an exact ground-truth verdict computed from the actual query positions shows that nothing visible was wrong.",
+            "Fault enumeration: 13 adversary strategies in 6 families (honest folding of random / too-high-degree (also with every coefficient below the bound zero) / partially corrupted functions, over-long remainder, switching to another function at some layer, values opened from another chain or solved after the queries so that only one Merkle check can notice, folding with a wrong challenge incl. crafted instances only that one consistency check can notice, omitted / duplicated / swapped layers, remainder interpolated after the queries with and without sending its commitment, rows solved after the queries under a partition count above the number of rows) played by an independent FRI prover that writes FriProof wire bytes itself against the real FriVerifier/DefaultVerifierChannel, over folding 2/4/8/16, all remainder sizes, blowups, 1..255 queries, base and extension fields, six hashers. Acceptance is allowed only when an exact ground-truth verdict computed from the actual query positions shows that nothing visible was wrong.",
             "Panics on omitted/duplicated layers are labelled, not judged (C06's subject). Claimed degree bounds that are not of the form 2^k-1 are explored by the sub-check reduced-bound only (polynomials of degree between the claimed bound and the schedule's 2^k-1 proven honestly must be refused); more than one partition only in the hostile form named above. Collision resistance assumed.",
             "DESIGN.md 3/C05"),
     "C15": ("exploration", "vf-fri",
@@ -98,7 +98,7 @@ CHECKS = {
             "DESIGN.md 3/C10"),
     "C11": ("exploration", "vf-crypto",
             "differential property-based testing against reference hashers (vf-ref); enumerated lengths and boundary limb assignments; algebraic laws",
-            "Generated-input search against independent references: blake3/sha3 crates over canonical little-endian bytes; textbook Rescue Prime / Jive over integer residues with the published tables, validated at start-up against the published permutation vectors. Covered: every byte length 0..200 and around k*7*rate, random contents to 400 bytes, element lists of every length 0..40 and long lists up to 2100 elements (2^k-1, 2^k, 2^k+1) in base, quadratic and cubic typing with non-canonical internal images (must depend on residues only), merge = hash of concatenation, merge_with_int over 23 integer classes (injectivity), every two-class assignment of boundary limbs {0, 2^32-1, 2^32, p-1, ...} over all position masks for apply_round / apply_permutation, limbs solved to land an MDS product in the lazy-reduction window, determinism, hash(x) != hash(x||0), totality.",
+            "Generated-input search against independent references: blake3/sha3 crates over canonical little-endian bytes; textbook Rescue Prime / Jive over integer residues with the published tables, validated at start-up against the published permutation vectors. Covered: every byte length 0..200 and around k*7*rate, random contents to 400 bytes, element lists of every length 0..40 and long lists up to 2100 elements (2^k-1, 2^k, 2^k+1; up to 16385 elements for the byte hashers) in base, quadratic and cubic typing with non-canonical internal images (must depend on residues only), merge = hash of concatenation, the Jive summation on its own (values, canonical internal values, == with the digest built from the residues), merge_with_int over 23 integer classes (injectivity), every two-class assignment of boundary limbs {0, 2^32-1, 2^32, p-1, ...} over all position masks for apply_round / apply_permutation, limbs solved to land an MDS product in the lazy-reduction window, determinism, hash(x) != hash(x||0), totality.",
             "RpJive64_256's padding of a partial last block (overwrites instead of adds) is pinned as observed because the documentation does not decide it. Rp62_248's permutation internals are private and covered through apply_round / hash_elements / merge only.",
             "DESIGN.md 3/C11"),
     "C19": ("exploration", "vf-crypto",
